@@ -187,7 +187,7 @@ def _configs():
         for cplx in (False, True):
             for init in (False, True):
                 for i, k1 in enumerate(kinds):
-                    cfgs.append(dict(shape=sk, cplx=cplx, init=init, k1=k1, k2=kinds[(i + 1 + int(init) + 2 * int(cplx)) % len(kinds)]))
+                    cfgs.append(dict(shape=sk, cplx=cplx, init=init, k1=k1, k2=kinds[(i + 1 + (int(init) + 2 * int(cplx)) % (len(kinds) - 1)) % len(kinds)]))
     return cfgs
 
 
